@@ -286,3 +286,86 @@ Print Assumptions handler_sees_request.
 Theorem no_handler_for_partial : forall norm maxc, no_handler_for_partial_stmt norm maxc.
 Proof. exact no_handler_for_partial_proof. Qed.
 Print Assumptions no_handler_for_partial.
+
+(* ------------------------------------------------------------------------------------------ *)
+(* Non-vacuity: the hypotheses of handler_sees_request hold for a concrete connection           *)
+(* ------------------------------------------------------------------------------------------ *)
+(* A Responder request (id 9, KeepConn) whose Params record is preceded by a GetValues query, followed
+   by an empty Stdin record; B = 160.  The first 5 bytes of the wire are the leftover of the previous
+   request, the rest is still with the client in two segments; the transport answers with a short read,
+   a spurious wake-up, a 50-byte read, then full reads; it accepts the reply after a wake-up and a
+   1-byte write. *)
+Definition lp_pairs : list (bytes * bytes) := [([65; 66], [7; 8]); ([66], [])].
+Definition lp_payload : bytes := match nv_write_all lp_pairs with Some e => e | None => [] end.
+Definition lp_gv : rcd := mkRcd RT_GetValues 0 [14; 0; 70; 67; 71; 73; 95; 77; 65; 88; 95; 67; 79; 78; 78; 83] [0; 0].
+Definition lp_pw : preamble := mkPreamble [] 9 ROLE_Responder 1 [] [mkPiece [lp_gv] lp_payload [0]] [] [0].
+Definition lp_trailing : bytes := [1; 5; 0; 9; 0; 0; 0; 0].
+Definition lp_wire : bytes := enc_rcds (preamble_rcds lp_pw) ++ lp_trailing.
+Definition lp_L : bytes := take 5 lp_wire.
+Definition lp_w : world :=
+  mkW [3; 0; 50] [0; 1] [(0, 0, take 20 (drop 5 lp_wire)); (0, 0, drop 25 lp_wire)] [] 0 1 0 false false [].
+Definition lp_run : res (sp + N) :=
+  parse_request (fun b => b) 5 (io_fuel lp_w 0) (mkParser (aligned_bufsize 160) lp_L Header) [] lp_w.
+
+Ltac lp_dec :=
+  first [ apply bytes_okb_ok; vm_compute; reflexivity
+        | vm_compute; reflexivity
+        | vm_compute; discriminate ].
+
+Lemma lp_gv_fits : gv_fits (aligned_bufsize 160) lp_gv.
+Proof.
+  intros _ _ k. apply N.ltb_lt.
+  destruct (N.lt_ge_cases k (N.of_nat 17)) as [Hk|Hk].
+  - revert k Hk.
+    apply (sweep_lt (fun k => len (snd (nv_run (take k (rbody lp_gv)))) <? aligned_bufsize 160) 17).
+    vm_compute. reflexivity.
+  - rewrite take_all by (change (len (rbody lp_gv)) with 16; lia). vm_compute. reflexivity.
+Qed.
+
+Example handler_sees_request_nonvacuous :
+  160 < SIZE_LIMIT - 8 /\ bytes_ok lp_L /\ len lp_L <= aligned_bufsize 160 /\ world_ok lp_w /\
+  preamble_ok lp_pw /\ Forall pair_ok lp_pairs /\ nv_write_all lp_pairs = Some (preamble_payload lp_pw) /\
+  Forall (pair_fits (aligned_bufsize 160)) lp_pairs /\ preamble_fits (aligned_bufsize 160) lp_pw /\
+  bytes_ok lp_trailing /\ len (enc_rcds (preamble_rcds lp_pw) ++ lp_trailing) < SIZE_LIMIT /\
+  lp_L ++ remaining lp_w = enc_rcds (preamble_rcds lp_pw) ++ lp_trailing /\
+  exists s0 w', lp_run = Ok (inl s0) w'.
+Proof.
+  split; [lp_dec|]. split; [lp_dec|]. split; [lp_dec|].
+  split. { constructor; [lp_dec|]. constructor; [lp_dec|constructor]. }
+  split.
+  { unfold preamble_ok, lp_pw. cbn [w_idle w_id w_role w_flags w_beginpad w_pieces w_endjunk w_endpad].
+    split; [constructor|]. split; [split; lp_dec|]. split; [lp_dec|]. split; [lp_dec|]. split; [lp_dec|].
+    split; [lp_dec|]. split.
+    { constructor; [|constructor]. unfold piece_ok. cbn [pjunk pbody ppad].
+      split.
+      { constructor; [|constructor]. split.
+        - unfold rcd_ok. repeat split; lp_dec.
+        - intros [H _]. vm_compute in H. discriminate H. }
+      split; [split; lp_dec|]. split; [lp_dec|]. split; lp_dec. }
+    split; [constructor|]. split; lp_dec. }
+  split. { constructor; [split; lp_dec|]. constructor; [split; lp_dec|constructor]. }
+  split; [lp_dec|].
+  split. { constructor; [lp_dec|]. constructor; [lp_dec|constructor]. }
+  split.
+  { unfold preamble_fits, lp_pw. cbn [w_idle w_pieces w_endjunk]. split; [constructor|]. split; [|constructor].
+    constructor; [|constructor]. cbn [pjunk]. constructor; [exact lp_gv_fits|constructor]. }
+  split; [lp_dec|]. split; [lp_dec|]. split; [lp_dec|].
+  assert (H : match lp_run with Ok (inl _) _ => True | _ => False end) by (vm_compute; exact I).
+  destruct lp_run as [[s0|k] w'|o w']; try contradiction. exists s0, w'. reflexivity.
+Qed.
+
+(* ... so the theorem applies to it: the handler is given exactly request 9 with the two variables, the
+   GetValues reply has been written, and the stream parser starts with the empty Stdin record *)
+Example handler_sees_request_instance : forall s0 w', lp_run = Ok (inl s0) w' ->
+  sreq s0 = mkReq 9 ROLE_Responder 1 lp_pairs /\
+  wlog w' = preamble_replies 5 lp_pw /\
+  raw_bytes s0 ++ remaining w' = lp_trailing.
+Proof.
+  intros s0 w' E.
+  destruct handler_sees_request_nonvacuous as (H1 & H2 & H3 & H4 & H5 & H6 & H7 & H8 & H9 & H10 & H11 & H12 & _).
+  destruct (handler_sees_request (fun b => b) 5 (io_fuel lp_w 0) 160 lp_L lp_w lp_pw lp_pairs lp_trailing s0 w'
+              H1 H2 H3 H4 H5 H6 H7 H8 H9 H10 H11 H12 E) as (C1 & C2 & C3 & _).
+  split; [rewrite C1; reflexivity|]. split; [exact C2|exact C3].
+Qed.
+Print Assumptions handler_sees_request_nonvacuous.
+Print Assumptions handler_sees_request_instance.
